@@ -6,9 +6,23 @@ import Tuc.Lemmas.Run
 The chunk loop is the machine `streamStep` over bytes tagged with "last byte of its chunk".
 Chunk independence = the run does not depend on the tags.  The heart of the argument is that
 printing a field piece by piece (`print_bof … field_complete = false` once per chunk, then the
-completing call) writes the same bytes and leaves the same pending bound as printing it at once.
-That is false for a bounds list with two adjacent literal texts (`print_bof` consumes at most
-one filler per call), so it is proved under `NoAdjFillers`, which the bounds parser guarantees.
+completing call) writes the same bytes and leaves the same pending bound as printing it at once
+(`printBof_split`).  That is false for a bounds list with two adjacent literal texts (`print_bof`
+consumes at most one filler per call; see the counter-example at the end), so it is proved under
+`NoAdjFillers`, which the bounds parser guarantees.
+
+Plan of the proof.  The canonical run is the one where no byte is tagged (`untag`): the whole
+record stays pending and is written by the delimiter / EOL / EOF that ends the field.  A run over
+an arbitrary tagging is, at every moment, in one of three relations with the canonical run over the
+same bytes (`sim`, `streamRun_doomed`):
+* same state, same output so far;
+* the tagged run has already written a non-empty prefix `p₁` of the pending piece
+  (`printBof … p₁ false = some (w, i₁)`): it is `w` ahead, its `bof_idx` is `i₁`, its `trunc` is
+  set, everything else is equal — and `printBof_split` shows the next call catches up;
+* the tagged run has panicked in `print_bof` (`matches` was an `Err`): the canonical run is in a
+  state where the very same call is the next thing it does, and it writes nothing before.
+Main results: `streamRun_untag`, `tag_independent`, `cutBytesStream_canonical`,
+`chunk_independent`, `buffer_size_irrelevant`.
 -/
 namespace Tuc
 
@@ -43,13 +57,17 @@ theorem noAdj_get (l : List BoF) (h : NoAdjFillers l) (i : Nat) (f g : Bytes)
     | succ k =>
       exact ih (noAdj_tail h) k (by simpa using h0) (by simpa using h1)
 
-/-- **A field printed in two pieces.**  Feeding an unfinished field to `print_bof` in two parts
-    (two chunks) writes what feeding it at once writes and leaves the same `bof_idx`. -/
-theorem printBof_append (o : StreamOpt) (hwf : NoAdjFillers o.bounds) (bofIdx : Nat) (curr : Int)
-    (trunc : Bool) (p₁ p₂ : Bytes) (w₁ : Bytes) (i₁ : Nat)
+/-- **A field printed in two pieces.**  If the first part `p₁` of a field has been fed to `print_bof`
+    as an unfinished piece (end of a chunk), then feeding the rest `p₂` — unfinished again
+    (`fc = false`) or completing the field (`fc = true`; `p₂` may be empty: the field ended
+    exactly at the chunk end) — never panics and, together, writes what one call on `p₁ ++ p₂`
+    writes, and leaves the same `bof_idx`.  After the first part `trunc = true` suppresses the
+    delimiter that the single call prints in front of the field. -/
+theorem printBof_split (o : StreamOpt) (hwf : NoAdjFillers o.bounds) (bofIdx : Nat) (curr : Int)
+    (trunc : Bool) (p₁ p₂ : Bytes) (fc : Bool) (w₁ : Bytes) (i₁ : Nat)
     (h₁ : printBof o bofIdx curr trunc p₁ false = some (w₁, i₁)) :
-    printBof o bofIdx curr trunc (p₁ ++ p₂) false =
-      (printBof o i₁ curr true p₂ false).map fun (w₂, i₂) => (w₁ ++ w₂, i₂) := by
+    ∃ w₂ i₂, printBof o i₁ curr true p₂ fc = some (w₂, i₂) ∧
+      printBof o bofIdx curr trunc (p₁ ++ p₂) fc = some (w₁ ++ w₂, i₂) := by
   unfold printBof at h₁ ⊢
   cases h0 : o.bounds[bofIdx]? with
   | none =>
@@ -73,7 +91,8 @@ theorem printBof_append (o : StreamOpt) (hwf : NoAdjFillers o.bounds) (bofIdx : 
           simp only [hm, Bool.false_and, Bool.false_eq_true, if_false, Option.some.injEq,
             Prod.mk.injEq] at h₁ ⊢
           obtain ⟨rfl, rfl⟩ := h₁
-          simp [h0, hm, List.append_assoc]
+          by_cases hc : (fc && decide (b.r = Side.some curr)) = true <;>
+            simp [h0, hm, hc, List.append_assoc]
     | filler f =>
       simp only [h0] at h₁ ⊢
       cases h1 : o.bounds[bofIdx + 1]? with
@@ -98,7 +117,402 @@ theorem printBof_append (o : StreamOpt) (hwf : NoAdjFillers o.bounds) (bofIdx : 
               simp only [hm, Bool.false_and, Bool.false_eq_true, if_false, Option.some.injEq,
                 Prod.mk.injEq] at h₁ ⊢
               obtain ⟨rfl, rfl⟩ := h₁
-              simp [h1, hm, List.append_assoc]
+              by_cases hc : (fc && decide (b.r = Side.some curr)) = true <;>
+                simp [h1, hm, hc, List.append_assoc]
+
+/-- the `field_complete = false` instance, in the form of the first version of this file -/
+theorem printBof_append (o : StreamOpt) (hwf : NoAdjFillers o.bounds) (bofIdx : Nat) (curr : Int)
+    (trunc : Bool) (p₁ p₂ : Bytes) (w₁ : Bytes) (i₁ : Nat)
+    (h₁ : printBof o bofIdx curr trunc p₁ false = some (w₁, i₁)) :
+    printBof o bofIdx curr trunc (p₁ ++ p₂) false =
+      (printBof o i₁ curr true p₂ false).map fun (w₂, i₂) => (w₁ ++ w₂, i₂) := by
+  obtain ⟨w₂, i₂, h2, h3⟩ := printBof_split o hwf bofIdx curr trunc p₁ p₂ false w₁ i₁ h₁
+  rw [h2, h3]; rfl
+
+/-- the companion for the completing call (delimiter or EOL found) -/
+theorem printBof_complete_append (o : StreamOpt) (hwf : NoAdjFillers o.bounds) (bofIdx : Nat)
+    (curr : Int) (trunc : Bool) (p₁ p₂ : Bytes) (w₁ : Bytes) (i₁ : Nat)
+    (h₁ : printBof o bofIdx curr trunc p₁ false = some (w₁, i₁)) :
+    printBof o bofIdx curr trunc (p₁ ++ p₂) true =
+      (printBof o i₁ curr true p₂ true).map fun (w₂, i₂) => (w₁ ++ w₂, i₂) := by
+  obtain ⟨w₂, i₂, h2, h3⟩ := printBof_split o hwf bofIdx curr trunc p₁ p₂ true w₁ i₁ h₁
+  rw [h2, h3]; rfl
+
+/-- a second flush with nothing to flush is a no-op (it is never executed; used at EOF) -/
+theorem printBof_flushed_nil (o : StreamOpt) (hwf : NoAdjFillers o.bounds) (bofIdx : Nat)
+    (curr : Int) (trunc : Bool) (p₁ : Bytes) (w₁ : Bytes) (i₁ : Nat)
+    (h₁ : printBof o bofIdx curr trunc p₁ false = some (w₁, i₁)) :
+    printBof o i₁ curr true [] false = some ([], i₁) := by
+  obtain ⟨w₂, i₂, h2, h3⟩ := printBof_split o hwf bofIdx curr trunc p₁ [] false w₁ i₁ h₁
+  rw [List.append_nil, h₁] at h3
+  simp only [Option.some.injEq, Prod.mk.injEq, List.self_eq_append_right] at h3
+  obtain ⟨rfl, rfl⟩ := h3
+  exact h2
+
+/-- whether `print_bof` panics depends on the pending bound and the field number only -/
+theorem printBof_none_indep (o : StreamOpt) (b : Nat) (c : Int) (tr tr' : Bool) (p p' : Bytes)
+    (fc fc' : Bool) (h : printBof o b c tr p fc = none) : printBof o b c tr' p' fc' = none := by
+  unfold printBof at h ⊢
+  split at h
+  simp only
+  split at h
+  · split at h
+    · simp
+    · simp at h
+    · split at h <;> simp at h
+  · simp at h
+
+/-! ## the step function, case by case -/
+
+theorem streamStep_skip (o : StreamOpt) (st : SState) (c : UInt8) (t : Bool) (h : st.skip = true) :
+    streamStep o st c t =
+      if c = o.eol.byte then (Run.ok [o.eol.byte], {}) else (Run.empty, { st with started := true }) := by
+  simp [streamStep, h]
+
+theorem streamStep_eol (o : StreamOpt) (st : SState) (c : UInt8) (t : Bool) (h : st.skip = false)
+    (hc : c = o.eol.byte) :
+    streamStep o st c t =
+      if st.currField = 1 ∧ !st.trunc ∧ st.piece.isEmpty then (Run.ok [o.eol.byte], {})
+      else (endOfRecord o st, {}) := by
+  simp [streamStep, h, hc]
+
+theorem streamStep_delim_none (o : StreamOpt) (st : SState) (c : UInt8) (t : Bool) (h : st.skip = false)
+    (hc : c ≠ o.eol.byte) (hd : c = o.delimiter)
+    (hp : printBof o st.bofIdx st.currField st.trunc st.piece true = none) :
+    streamStep o st c t = (Run.panic, st) := by
+  subst hd
+  simp [streamStep, h, hc, hp]
+
+theorem streamStep_delim_some (o : StreamOpt) (st : SState) (c : UInt8) (t : Bool) (h : st.skip = false)
+    (hc : c ≠ o.eol.byte) (hd : c = o.delimiter) (w : Bytes) (i : Nat)
+    (hp : printBof o st.bofIdx st.currField st.trunc st.piece true = some (w, i)) :
+    streamStep o st c t =
+        if Side.some st.currField = o.lastInterestingField then
+          ((Run.ok w).seq (printFillerOrFallbacks o st.currField (o.bounds.drop i)),
+           { st with bofIdx := o.bounds.length, trunc := false, piece := [], skip := true, started := true })
+        else
+          (Run.ok w, { bofIdx := i, currField := st.currField + 1, trunc := false, piece := [],
+                       skip := false, started := true }) := by
+  subst hd
+  simp [streamStep, h, hc, hp]
+
+theorem streamStep_ord_false (o : StreamOpt) (st : SState) (c : UInt8) (h : st.skip = false)
+    (hc : c ≠ o.eol.byte) (hd : c ≠ o.delimiter) :
+    streamStep o st c false = (Run.empty, { st with piece := st.piece ++ [c], started := true }) := by
+  simp [streamStep, h, hc, hd]
+
+theorem streamStep_ord_true_none (o : StreamOpt) (st : SState) (c : UInt8) (h : st.skip = false)
+    (hc : c ≠ o.eol.byte) (hd : c ≠ o.delimiter)
+    (hp : printBof o st.bofIdx st.currField st.trunc (st.piece ++ [c]) false = none) :
+    streamStep o st c true = (Run.panic, st) := by
+  simp [streamStep, h, hc, hd, hp]
+
+theorem streamStep_ord_true_some (o : StreamOpt) (st : SState) (c : UInt8) (h : st.skip = false)
+    (hc : c ≠ o.eol.byte) (hd : c ≠ o.delimiter) (w : Bytes) (i : Nat)
+    (hp : printBof o st.bofIdx st.currField st.trunc (st.piece ++ [c]) false = some (w, i)) :
+    streamStep o st c true =
+      (Run.ok w, { st with bofIdx := i, trunc := true, piece := [], started := true }) := by
+  simp [streamStep, h, hc, hd, hp]
+
+/-- in the three cases where the chunk end is not looked at, the tag is irrelevant -/
+theorem streamStep_tag_irrel (o : StreamOpt) (st : SState) (c : UInt8) (t t' : Bool)
+    (h : st.skip = true ∨ c = o.eol.byte ∨ c = o.delimiter) :
+    streamStep o st c t = streamStep o st c t' := by
+  by_cases hs : st.skip = true
+  · rw [streamStep_skip _ _ _ _ hs, streamStep_skip _ _ _ _ hs]
+  · have hs' : st.skip = false := by simpa using hs
+    by_cases hc : c = o.eol.byte
+    · rw [streamStep_eol _ _ _ _ hs' hc, streamStep_eol _ _ _ _ hs' hc]
+    · have hd : c = o.delimiter := by
+        rcases h with h | h | h
+        · exact absurd h hs
+        · exact absurd h hc
+        · exact h
+      cases hp : printBof o st.bofIdx st.currField st.trunc st.piece true with
+      | none => rw [streamStep_delim_none _ _ _ _ hs' hc hd hp, streamStep_delim_none _ _ _ _ hs' hc hd hp]
+      | some x =>
+        rw [streamStep_delim_some _ _ _ _ hs' hc hd x.1 x.2 hp, streamStep_delim_some _ _ _ _ hs' hc hd x.1 x.2 hp]
+
+theorem streamRun_cons (o : StreamOpt) (st : SState) (c : UInt8) (t : Bool) (l : List (UInt8 × Bool)) :
+    streamRun o st ((c, t) :: l) = (streamStep o st c t).1.seq (streamRun o (streamStep o st c t).2 l) := by
+  rfl
+
+theorem Run.panic_seq (r : Run) : Run.panic.seq r = Run.panic := by
+  simp [Run.seq, Run.panic]
+
+/-- a state whose pending bound cannot be matched against the current field (`matches` is an
+    `Err`): whatever follows, the next `print_bof` panics and nothing is written before -/
+theorem streamRun_doomed (o : StreamOpt) (l : List (UInt8 × Bool)) : ∀ st : SState,
+    st.skip = false → st.started = true → st.piece ≠ [] →
+    printBof o st.bofIdx st.currField st.trunc st.piece false = none →
+    streamRun o st l = Run.panic := by
+  induction l with
+  | nil =>
+    intro st hs hst hp hn
+    have hp' : st.piece.isEmpty = false := by simpa using hp
+    simp [streamRun, streamEof, hs, hst, hp', hn]
+  | cons x l ih =>
+    obtain ⟨c, t⟩ := x
+    intro st hs hst hp hn
+    rw [streamRun_cons]
+    have hp' : st.piece.isEmpty = false := by simpa using hp
+    by_cases hc : c = o.eol.byte
+    · rw [streamStep_eol _ _ _ _ hs hc]
+      have := printBof_none_indep o _ _ _ st.trunc _ st.piece _ true hn
+      simp [hp', endOfRecord, this, Run.panic_seq]
+    · by_cases hd : c = o.delimiter
+      · have := printBof_none_indep o _ _ _ st.trunc _ st.piece _ true hn
+        rw [streamStep_delim_none _ _ _ _ hs hc hd this]
+        simp [Run.panic_seq]
+      · cases t with
+        | true =>
+          have := printBof_none_indep o _ _ _ st.trunc _ (st.piece ++ [c]) _ false hn
+          rw [streamStep_ord_true_none _ _ _ hs hc hd this]
+          simp [Run.panic_seq]
+        | false =>
+          rw [streamStep_ord_false _ _ _ hs hc hd]
+          simp only [Run.empty_seq]
+          apply ih
+          · exact hs
+          · rfl
+          · simp
+          · exact printBof_none_indep o _ _ _ st.trunc _ (st.piece ++ [c]) _ false hn
+
+/-! ## the simulation -/
+
+/-- forget the read segmentation: no byte ends a chunk -/
+def untag (l : List (UInt8 × Bool)) : List (UInt8 × Bool) := l.map fun x => (x.1, false)
+
+@[simp] theorem untag_nil : untag [] = [] := rfl
+@[simp] theorem untag_cons (c : UInt8) (t : Bool) (l : List (UInt8 × Bool)) :
+    untag ((c, t) :: l) = (c, false) :: untag l := rfl
+
+/-- finishing a record whose current field has been partly written -/
+theorem endOfRecord_flushed (o : StreamOpt) (hwf : NoAdjFillers o.bounds) (b : Nat) (curr : Int)
+    (tr : Bool) (p₁ p₂ w : Bytes) (i₁ : Nat) (sk sd : Bool)
+    (h₁ : printBof o b curr tr p₁ false = some (w, i₁)) :
+    endOfRecord o ⟨b, curr, tr, p₁ ++ p₂, sk, sd⟩ =
+      Run.pre w (endOfRecord o ⟨i₁, curr, true, p₂, sk, sd⟩) := by
+  obtain ⟨w₂, i₂, h2, h3⟩ := printBof_split o hwf b curr tr p₁ p₂ true w i₁ h₁
+  simp only [endOfRecord, h2, h3]
+  rw [Run.seq_ok, Run.seq_ok, Run.pre_pre]
+
+/-- **Simulation.**  By induction on the tagged input, simultaneously: (1) from equal states the
+    canonical (untagged) run equals the tagged run; (2) from a state where the tagged run has
+    already flushed the non-empty prefix `p₁` of the pending piece, writing `w`, the canonical run
+    equals `w` followed by the tagged run. -/
+theorem sim (o : StreamOpt) (hwf : NoAdjFillers o.bounds) (l : List (UInt8 × Bool)) :
+    (∀ st : SState, streamRun o st (untag l) = streamRun o st l) ∧
+    (∀ (b : Nat) (curr : Int) (tr : Bool) (p₁ p₂ w : Bytes) (i₁ : Nat), p₁ ≠ [] →
+      printBof o b curr tr p₁ false = some (w, i₁) →
+      streamRun o ⟨b, curr, tr, p₁ ++ p₂, false, true⟩ (untag l) =
+        Run.pre w (streamRun o ⟨i₁, curr, true, p₂, false, true⟩ l)) := by
+  induction l with
+  | nil =>
+    refine ⟨fun _ => rfl, ?_⟩
+    intro b curr tr p₁ p₂ w i₁ hne h₁
+    obtain ⟨w₂, i₂, h2, h3⟩ := printBof_split o hwf b curr tr p₁ p₂ false w i₁ h₁
+    have hp : (p₁ ++ p₂).isEmpty = false := by simp [hne]
+    simp only [untag_nil, streamRun, streamEof, hp, h3]
+    cases p₂ with
+    | nil =>
+      have h4 := printBof_flushed_nil o hwf b curr tr p₁ w i₁ h₁
+      rw [h4] at h2
+      simp only [Option.some.injEq, Prod.mk.injEq] at h2
+      obtain ⟨rfl, rfl⟩ := h2
+      simp [Run.seq_ok]
+    | cons x xs =>
+      simp [h2, Run.seq_ok, Run.pre_pre]
+  | cons x l ih =>
+    obtain ⟨c, t⟩ := x
+    obtain ⟨ih1, ih2⟩ := ih
+    constructor
+    · intro st
+      rw [untag_cons, streamRun_cons, streamRun_cons]
+      by_cases h : st.skip = true ∨ c = o.eol.byte ∨ c = o.delimiter
+      · rw [streamStep_tag_irrel o st c false t h, ih1]
+      · have hs : st.skip = false := by
+          cases hsk : st.skip with
+          | false => rfl
+          | true => exact absurd (Or.inl hsk) h
+        have hc : c ≠ o.eol.byte := fun hc => h (Or.inr (Or.inl hc))
+        have hd : c ≠ o.delimiter := fun hd => h (Or.inr (Or.inr hd))
+        cases t with
+        | false => rw [ih1]
+        | true =>
+          rw [streamStep_ord_false _ _ _ hs hc hd]
+          simp only [Run.empty_seq]
+          cases hp : printBof o st.bofIdx st.currField st.trunc (st.piece ++ [c]) false with
+          | none =>
+            rw [streamStep_ord_true_none _ _ _ hs hc hd hp]
+            simp only [Run.panic_seq]
+            exact streamRun_doomed o _ _ hs rfl (by simp) hp
+          | some x =>
+            obtain ⟨w, i⟩ := x
+            rw [streamStep_ord_true_some _ _ _ hs hc hd w i hp]
+            obtain ⟨b, curr, tr, p, sk, sd⟩ := st
+            simp only at hs hp ⊢
+            subst hs
+            have := ih2 b curr tr (p ++ [c]) [] w i (by simp) hp
+            rw [List.append_nil] at this
+            rw [this, Run.seq_ok]
+    · intro b curr tr p₁ p₂ w i₁ hne h₁
+      have hp : (p₁ ++ p₂).isEmpty = false := by simp [hne]
+      rw [untag_cons, streamRun_cons, streamRun_cons]
+      by_cases hc : c = o.eol.byte
+      · rw [streamStep_eol _ _ _ _ rfl hc, streamStep_eol _ _ _ _ rfl hc]
+        simp only [hp, Bool.not_true, Bool.false_eq_true, and_false, false_and, if_false]
+        rw [endOfRecord_flushed o hwf b curr tr p₁ p₂ w i₁ false true h₁, Run.pre_seq, ih1]
+      · by_cases hd : c = o.delimiter
+        · obtain ⟨w₂, i₂, h2, h3⟩ := printBof_split o hwf b curr tr p₁ p₂ true w i₁ h₁
+          rw [streamStep_delim_some _ _ _ _ rfl hc hd (w ++ w₂) i₂ h3,
+            streamStep_delim_some _ _ _ _ rfl hc hd w₂ i₂ h2]
+          by_cases hl : Side.some curr = o.lastInterestingField
+          · simp only [hl, if_true]
+            rw [ih1]
+            simp only [Run.seq_ok, Run.pre_seq, Run.pre_pre]
+          · simp only [hl, if_false]
+            rw [ih1]
+            simp only [Run.seq_ok, Run.pre_pre]
+        · rw [streamStep_ord_false _ _ _ rfl hc hd]
+          simp only [Run.empty_seq]
+          cases t with
+          | false =>
+            rw [streamStep_ord_false _ _ _ rfl hc hd]
+            simp only [Run.empty_seq]
+            have := ih2 b curr tr p₁ (p₂ ++ [c]) w i₁ hne h₁
+            rw [← List.append_assoc] at this
+            exact this
+          | true =>
+            obtain ⟨w₂, i₂, h2, h3⟩ := printBof_split o hwf b curr tr p₁ (p₂ ++ [c]) false w i₁ h₁
+            rw [streamStep_ord_true_some _ _ _ rfl hc hd w₂ i₂ h2]
+            simp only
+            have := ih2 b curr tr (p₁ ++ (p₂ ++ [c])) [] (w ++ w₂) i₂ (by simp [hne]) h3
+            rw [List.append_nil, ← List.append_assoc] at this
+            rw [this, Run.seq_ok, Run.pre_pre]
+
+/-! ## the run is a function of the bytes -/
+
+/-- **Canonical form.**  From any state, the run over a tagged input is the run over the same bytes
+    with no chunk end at all (the whole input in one unbounded buffer, EOF flushing the rest). -/
+theorem streamRun_untag (o : StreamOpt) (hwf : NoAdjFillers o.bounds) (st : SState)
+    (l : List (UInt8 × Bool)) : streamRun o st l = streamRun o st (untag l) :=
+  ((sim o hwf l).1 st).symm
+
+theorem untag_eq_map (l : List (UInt8 × Bool)) :
+    untag l = (l.map Prod.fst).map fun c => (c, false) := by
+  simp [untag, List.map_map, Function.comp_def]
+
+/-- two taggings of the same byte sequence give the same run, from any state -/
+theorem tag_independent (o : StreamOpt) (hwf : NoAdjFillers o.bounds) (st : SState)
+    (l l' : List (UInt8 × Bool)) (h : l.map Prod.fst = l'.map Prod.fst) :
+    streamRun o st l = streamRun o st l' := by
+  rw [streamRun_untag o hwf st l, streamRun_untag o hwf st l', untag_eq_map, untag_eq_map, h]
+
+theorem tagSegment_fst (s : Bytes) : (tagSegment s).map Prod.fst = s := by
+  induction s with
+  | nil => rfl
+  | cons c t ih =>
+    cases t with
+    | nil => rfl
+    | cons d t' => simpa [tagSegment] using ih
+
+theorem tagSegments_fst (segs : List Bytes) : (tagSegments segs).map Prod.fst = segs.flatten := by
+  induction segs with
+  | nil => rfl
+  | cons s t ih =>
+    simp only [tagSegments, List.flatMap_cons, List.map_append, List.flatten_cons] at ih ⊢
+    rw [ih, tagSegment_fst]
+
+/-- the canonical form of `cutBytesStream`: only the concatenation of the segments matters -/
+theorem cutBytesStream_canonical (o : StreamOpt) (hwf : NoAdjFillers o.bounds) (segs : List Bytes) :
+    cutBytesStream o segs = streamRun o {} (segs.flatten.map fun c => (c, false)) := by
+  unfold cutBytesStream
+  rw [streamRun_untag o hwf, untag_eq_map, tagSegments_fst]
+
+/-- **C04.**  The run of the `-M` cutter (bytes written *and* status) is the same for every way
+    successive reads split the input.  (Empty segments are harmless: `tagSegment [] = []`, so the
+    hypotheses "no segment is empty" are not needed.) -/
+theorem chunk_independent (o : StreamOpt) (hwf : NoAdjFillers o.bounds) (segs segs' : List Bytes)
+    (h : segs.flatten = segs'.flatten) :
+    cutBytesStream o segs = cutBytesStream o segs' := by
+  rw [cutBytesStream_canonical o hwf segs, cutBytesStream_canonical o hwf segs', h]
+
+/-- … in particular it is what one read of the whole input gives -/
+theorem cutBytesStream_one_read (o : StreamOpt) (hwf : NoAdjFillers o.bounds) (segs : List Bytes) :
+    cutBytesStream o segs = cutBytesStream o [segs.flatten] :=
+  chunk_independent o hwf _ _ (by simp)
+
+/-! ## buffer sizes -/
+
+/-- a reader that always fills a buffer of `k + 1` bytes (fuel = length of the input) -/
+def chunksOfAux (k : Nat) : Nat → Bytes → List Bytes
+  | 0, l => [l]
+  | n + 1, l => if l = [] then [] else l.take (k + 1) :: chunksOfAux k n (l.drop (k + 1))
+
+/-- the input cut into full buffers of `k + 1` bytes (the last one possibly shorter) -/
+def chunksOf (k : Nat) (l : Bytes) : List Bytes := chunksOfAux k l.length l
+
+theorem chunksOfAux_flatten (k n : Nat) (l : Bytes) : (chunksOfAux k n l).flatten = l := by
+  induction n generalizing l with
+  | zero => simp [chunksOfAux]
+  | succ n ih =>
+    unfold chunksOfAux
+    by_cases hl : l = []
+    · simp [hl]
+    · rw [if_neg hl, List.flatten_cons, ih, List.take_append_drop]
+
+theorem chunksOf_flatten (k : Nat) (l : Bytes) : (chunksOf k l).flatten = l :=
+  chunksOfAux_flatten k _ l
+
+/-- **C04, in words.**  The size of the read buffer does not matter. -/
+theorem buffer_size_irrelevant (o : StreamOpt) (hwf : NoAdjFillers o.bounds) (input : Bytes)
+    (k k' : Nat) :
+    cutBytesStream o (chunksOf k input) = cutBytesStream o (chunksOf k' input) :=
+  chunk_independent o hwf _ _ (by rw [chunksOf_flatten, chunksOf_flatten])
+
+/-- … and neither do short reads: any segmentation gives what full buffers of any size give -/
+theorem short_reads_irrelevant (o : StreamOpt) (hwf : NoAdjFillers o.bounds) (segs : List Bytes)
+    (k : Nat) : cutBytesStream o segs = cutBytesStream o (chunksOf k segs.flatten) :=
+  chunk_independent o hwf _ _ (by rw [chunksOf_flatten])
+
+/-! ## a concrete instance: `tuc -M -d - -f 2` on `"ab-cd-e\n"` -/
+
+def exOpt : StreamOpt :=
+  { delimiter := 0x2d, replaceDelimiter := none, join := false, eol := .newline,
+    fallbackOob := none, bounds := [.bound { l := .some 2, r := .some 2, isLast := true }],
+    lastInterestingField := .some 2 }
+
+example : NoAdjFillers exOpt.bounds := by simp [exOpt, NoAdjFillers]
+
+-- "ab-cd-e\n" in one read, in reads of 3 bytes, cut in the middle of the selected field and
+-- right before a delimiter, byte by byte: always "cd\n", exit 0
+example : cutBytesStream exOpt [[0x61, 0x62, 0x2d, 0x63, 0x64, 0x2d, 0x65, 0x0a]]
+    = Run.ok [0x63, 0x64, 0x0a] := by decide
+example : cutBytesStream exOpt (chunksOf 2 [0x61, 0x62, 0x2d, 0x63, 0x64, 0x2d, 0x65, 0x0a])
+    = Run.ok [0x63, 0x64, 0x0a] := by decide
+example : cutBytesStream exOpt [[0x61, 0x62, 0x2d, 0x63], [0x64], [0x2d, 0x65, 0x0a]]
+    = Run.ok [0x63, 0x64, 0x0a] := by decide
+example : cutBytesStream exOpt [[0x61], [0x62], [0x2d], [0x63], [0x64], [0x2d], [0x65], [0x0a]]
+    = Run.ok [0x63, 0x64, 0x0a] := by decide
+
+/-! ## `NoAdjFillers` is needed
+
+With two literal texts in a row (which no format string parses to) the bytes written and even the
+status depend on the chunking: in one read `print_bof` consumes `x` only, finds the filler `y`
+where it expects a bound and the record ends with the fallback rule (here: exit 1); in two reads
+the first call drops the piece `a` for the same reason, the second one consumes `y` and prints
+the rest of the field (`xyb`, exit 0). -/
+
+def adjOpt : StreamOpt :=
+  { delimiter := 0x2d, replaceDelimiter := none, join := false, eol := .newline,
+    fallbackOob := none,
+    bounds := [.filler [0x78], .filler [0x79], .bound { l := .some 1, r := .some 1, isLast := true }],
+    lastInterestingField := .some 1 }
+
+example : ¬ NoAdjFillers adjOpt.bounds := by simp [adjOpt, NoAdjFillers]
+example : cutBytesStream adjOpt [[0x61, 0x62, 0x0a]] = ⟨[0x78, 0x79], .fail⟩ := by decide
+example : cutBytesStream adjOpt [[0x61], [0x62, 0x0a]] = Run.ok [0x78, 0x79, 0x62, 0x0a] := by decide
 
 /-- nothing of a chunk is kept once the chunk ends: after a byte tagged "last of its chunk" the
     pending piece is empty (what crosses a chunk boundary is counters and flags only) -/
